@@ -17,3 +17,4 @@ import RosuModel.Props.C04DecodedObjects
 import RosuModel.Props.C04DecodedObjectsToy
 import RosuModel.Props.C04DecodedObjectsIeee
 import RosuModel.Props.C04DecodedPaths
+import RosuModel.Props.C04DecodedPathsIeee
